@@ -108,5 +108,20 @@ for i,k in enumerate(KEYS):
 for L in (0,1,2,3,4,5,8,15,16,17,47,48,49):
     c05.append(job(f"saddr-len{L}","auparse","VH_SaddrTotal",["C05/"],{"len":L,"sym":8},Q if L in (3,4,15,16,48) else T,bounds=f"SOCKADDR saddr of {L} hex digits: family concrete (unix/ipv4/ipv6/netlink) or 4 symbolic digits, next 8 digits symbolic"))
 C["C05"]={"jobs":c05,"assumptions":PARSE_ASSUME,"outside":["inputs longer than the stated lengths","symbolic non-ASCII bytes"]}
+
+c04=[job("named-types","auparse","VH_Header",["C04/"],{"typemode":0,"secdigits":10,"seqdigits":10,"bodymax":3},Q,bounds="6 named types; seconds 10 symbolic digits < 2^34, ms 3 symbolic digits, sequence 10 symbolic digits < 2^32; body 0..3 symbolic ASCII bytes"),
+     job("unknown-types","auparse","VH_Header",["C04/"],{"typemode":1,"secdigits":10,"seqdigits":10,"bodymax":0},Q,bounds="type symbolic over the unnamed codes < 1000 or >= 2600 (written as UNKNOWN[n]); symbolic digits as above; empty body"),
+     job("lowercase","auparse","VH_Header",["C04/"],{"typemode":0,"lower":1,"secdigits":9,"seqdigits":5,"bodymax":0},Q,bounds="type name written in lower case"),
+     job("short-fields","auparse","VH_Header",["C04/"],{"typemode":0,"secdigits":1,"seqdigits":1,"bodymax":2},Q,bounds="one-digit seconds and sequence"),
+     job("secs-11-digits","auparse","VH_Header",["C04/"],{"typemode":0,"secdigits":11,"seqdigits":3,"bodymax":0},Q,bounds="seconds 11 symbolic digits < 2^34"),
+     job("all-types","auparse","VH_Header",["C04/"],{"typemode":2,"secdigits":10,"seqdigits":10,"bodymax":0},T,bounds="type fully symbolic (all 65536 codes: one path set per table entry plus the unnamed codes)"),
+     job("body-6","auparse","VH_Header",["C04/"],{"typemode":0,"secdigits":10,"seqdigits":10,"bodymax":6},T,bounds="body 0..6 symbolic ASCII bytes")]
+for h in range(5):
+    c04.append(job(f"hostile-{h}","auparse","VH_Header",["C04/"],{"typemode":0,"hostile":h,"secdigits":10,"seqdigits":10},Q,bounds="concrete hostile body #%d (well-known key names, extra msg=, delimiters, invalid UTF-8, empty)"%h))
+for mode,name in enumerate(["seq-out-of-range","bad-byte-in-field","empty-field","sign-in-sequence","truncations"]):
+    c04.append(job("bad-"+name,"auparse","VH_HeaderBad",["C04/"],{"mode":mode,"seqdigits":10},Q,bounds="malformed header: "+name))
+c04.append(job("bad-seq-11-digits","auparse","VH_HeaderBad",["C04/"],{"mode":0,"seqdigits":11},Q,bounds="sequence of 11 symbolic digits >= 2^32"))
+C["C04"]={"jobs":c04,"assumptions":PARSE_ASSUME+["expected numeric values are by construction (Horner over the same digit variables), not by parsing","time.Time.String is an uninterpreted injective rendering (the claim is about which instant reaches it)"],
+   "outside":["bodies longer than 6 symbolic bytes","symbolic non-ASCII bytes in the body (concrete ones are in the hostile list)","stricter header grammars than first '(' '.' ':' ')' (the property does not define one)"]}
 json.dump(C,open('/verif/checks.json','w'),indent=1)
 print({k:len(v["jobs"]) for k,v in C.items()})
